@@ -190,6 +190,9 @@ class Check:
         if workers is None:
             workers = 1
         jopts = ["-XX:+UseParallelGC", "-Xmx" + xmx, "-Xss" + xss]
+        if workers <= 2:
+            # many single-worker JVMs run side by side: keep each one's GC/JIT threads few
+            jopts += ["-XX:ParallelGCThreads=2", "-XX:CICompilerCount=2", "-XX:TieredStopAtLevel=1"]
         if dfs:
             jopts.append("-Dtlc2.tool.queue.IStateQueue=StateDeque")
         cmd = ["java"] + jopts + ["-cp", TLA_CP, "tlc2.TLC", "-metadir", os.path.join(d, "meta"),
